@@ -35,6 +35,16 @@ fn use_tlvs(mut it: v2::TypeLengthValues, n: usize) -> Result<usize, String> {
     sum += it.take(cap + 2).count();
     sum += it.take(cap + 2).collect::<Vec<_>>().len();
     sum += it.take(cap + 2).last().map_or(0, |x| x.is_ok() as usize);
+    // positional and searching forms, also repeated on one copy (an overriding `nth` must cope with what it skips)
+    for k in 0..=3usize {
+        sum += { let mut c = it; c.nth(k).is_some() as usize } + it.skip(k).next().is_some() as usize;
+        let mut c = it;
+        sum += c.nth(k).is_some() as usize + c.nth(1).is_some() as usize + c.nth(0).is_some() as usize + c.next().is_some() as usize;
+    }
+    sum += it.step_by(2).take(cap + 2).count() + it.step_by(3).take(cap + 2).count();
+    sum += it.take(cap + 2).find(|_| false).is_some() as usize + it.take(cap + 2).position(|_| false).unwrap_or(0);
+    sum += it.take(cap + 2).any(|_| false) as usize + it.take(cap + 2).all(|_| true) as usize;
+    sum += it.take(cap + 2).filter_map(|x| x.ok()).map(|t| t.len()).max().unwrap_or(0).min(1);
     loop {
         sum += it.size_hint().0.min(1);
         match it.next() {
